@@ -178,7 +178,8 @@ GRADE_SELECT = {
 }
 
 
-@rule("C03.table", props=["C03", "C14"], min_instances=21, mutants=[
+@rule("C03.table", props=["C03", "C14"], min_instances=28, mutants=[
+    ("cp filter reads the transposed sign with dict.get (bypasses the lazy table)", ("codegen", "filter_func = lambda kx, ky, k_out: (algebra.signs[kx, ky] - algebra.signs[ky, kx])", "filter_func = lambda kx, ky, k_out: algebra.signs[kx, ky] != algebra.signs.get((ky, kx))")),
     ("cp halves nothing but drops the sign", ("codegen", "            termstr = vx * vy if sign > 0 else (- vx * vy)", "            termstr = vx * vy if sign > 0 or filter_func else (- vx * vy)")),
 ])
 def table(ctx):
@@ -188,11 +189,12 @@ def table(ctx):
     reg = operator_registry(repo)
     for opname in ("op", "ip", "lc", "rc", "sp", "cp", "acp"):
         row = reg[opname]
-        reps = {k: v + (None,) for k, v in {**REPS, **(THOROUGH_REPS if ctx.tier == "thorough" else {})}.items()}
-        reps[BASIS_REP[0]] = (BASIS_REP[1], BASIS_REP[3], BASIS_REP[4], BASIS_REP[2])
-        for rep_name, (signature, xk, yk, basis) in reps.items():
+        reps = {k: v + (None, False) for k, v in {**REPS, **(THOROUGH_REPS if ctx.tier == "thorough" else {})}.items()}
+        reps[BASIS_REP[0]] = (BASIS_REP[1], BASIS_REP[3], BASIS_REP[4], BASIS_REP[2], False)
+        reps["lazily filled sign table (d > 6)"] = REPS["sparse-overlap[+,-,+]"] + (None, True)
+        for rep_name, (signature, xk, yk, basis, lazy) in reps.items():
             c = f"codegen.{row.codegen}#table:{rep_name}"
-            got = run_product(ctx, repo, row.codegen, signature, xk, yk, c, basis=basis)
+            got = run_product(ctx, repo, row.codegen, signature, xk, yk, c, basis=basis, lazy=lazy)
             from .c02 import basis_sign_fn
             sgn = basis_sign_fn(signature, basis) if basis else (lambda a, b, sig=signature: spec_sign(a, b, sig))
             if opname in GRADE_SELECT:
